@@ -62,6 +62,7 @@ class Emitter:
         self.bases = {}  # tag -> [base tags] in order
         self.protos = {}  # cname -> (ret, [param ctypes], source type string)
         self.globals = {}  # cname -> ctype
+        self.const_globals = {}  # cname -> (C++ name, tu) of globals used as compile-time constants
         self.enum_consts = {}  # C name -> (enum type, const name)
         self.lifted = []  # extra function texts (lambdas, per-call-site models of std algorithms)
         self.lifted_units = []  # their descriptions {cname, of, kind, loops}
@@ -317,6 +318,10 @@ class Emitter:
             if kind == "VarDecl" and rd["id"] not in self.locals and not self.is_local_name(name):
                 # global / static member variable
                 cn = self.global_name(n, rd)
+                if n.get("nonOdrUseReason") == "constant" and getattr(self, "cur_tu", None):
+                    # compile-time constant (constexpr / const with constant initialiser): its value is looked up
+                    # in the same TU by cxx2c.translate and emitted as the initialiser of the C global
+                    self.const_globals.setdefault(cn, (name, self.cur_tu))
                 return cn
             cname = self.local_name(rd)
             if rd["id"] in self.ref_ids:
@@ -900,6 +905,8 @@ class Emitter:
         if isref:
             ret += "*"
         cname = self.fn_cname(tag, name, ",".join(pcs))  # overloads: rename key "Class__m|<inferred C param types>"
+        # overloads may also be distinguished by arity: config rename {"Class__name/<number of arguments>": cname}
+        cname = self.renames.get("%s/%d" % (cname, len(args)), cname)
         # member function templates (clang prints no template arguments at the call): config
         # template_methods {"Class__method": "arg<i>" | "ret"} names the instantiation after the C type of that
         # argument / of the result, e.g. Channel::pack<int>(v) -> Channel__pack__int, unpack<bool>() -> Channel__unpack__bool
@@ -1740,16 +1747,27 @@ class Emitter:
         if condvar:
             raise Unsupported("for with condition variable")
         ce = "1"
+        cpre = []
         if c:
-            pre, ce = self.with_pre(lambda: self.E(c))
-            if pre:
-                raise Unsupported("temporaries in for condition")
+            cpre, ce = self.with_pre(lambda: self.E(c))
         ie = ""
         if inc:
             pre, ie = self.with_pre(lambda: self.E(inc))
             if pre:
                 raise Unsupported("temporaries in for increment")
         m = self.loop_macro()
+        if cpre:
+            # the condition needs statements (hoisted calls): evaluate it at the top of every iteration;
+            # `continue` in the body still reaches the increment expression
+            out.append("%sfor (; ; %s)" % (ind2, ie))
+            out.append(ind2 + "  " + m)
+            out.append(ind2 + "{")
+            out += [ind2 + "  " + p for p in cpre]
+            out.append("%s  if (!(%s)) break;" % (ind2, ce))
+            out += self.body(body, ind2 + "  ")
+            out.append(ind2 + "}")
+            out.append(ind + "}")
+            return out
         out.append("%sfor (; %s; %s)" % (ind2, ce, ie))
         out.append(ind2 + "  " + m)
         out += self.body(body, ind2)
@@ -1935,11 +1953,12 @@ class Emitter:
             if e.get("kind") != "CXXConstructExpr":
                 raise Unsupported("base initialiser")
             fnt = e.get("ctorType", {}).get("qualType")
-            args = self.call_args(e.get("inner", []), self.fn_params_from(fnt))
+            # arguments may hoist temporaries (calls evaluated first): emit those statements before the base ctor call
+            pre, args = self.with_pre(lambda: self.call_args(e.get("inner", []), self.fn_params_from(fnt)))
             cn = self.fn_cname(btag, "ctor", fnt)
             self.note_proto(cn, "void", ["struct %s*" % btag] + self.param_ctypes_from(fnt), "ctor " + btag + fnt)
             self.callees.setdefault(cn, "%s::%s %s" % (btag, btag, fnt))
-            return ["%s%s(%s);" % (ind, cn, ", ".join(["&self->__b_" + btag] + args))]
+            return [ind + p for p in pre] + ["%s%s(%s);" % (ind, cn, ", ".join(["&self->__b_" + btag] + args))]
         raise Unsupported("constructor initialiser form")
 
 
